@@ -13,7 +13,7 @@ META = {
     "technique": "Lean 4 proof (inductive invariant over ghost claim / invoked lists) + replay of real atomic traces + per-index oracle",
 }
 
-THEOREMS = ["C10.invoked_once_in_range", "C10.returns_after_all", "C10.caller_released", "C10.caller_released_witness", "C10.quiescent_returned", "C10.serial_in_order", "C10.serial_narrow_index_repeats"]
+THEOREMS = ["C10.invoked_once_in_range", "C10.returns_after_all", "C10.caller_released", "C10.caller_released_witness", "C10.quiescent_returned", "C10.signal_once", "C10.serial_in_order", "C10.serial_narrow_index_repeats"]
 
 
 def run(ctx):
